@@ -241,8 +241,10 @@ def outcome(ctx, report, rule, facts, config):
             for (ct, cv, cn, cb) in p.conds:
                 if ct[0] == "discr" and ct[1][0] == "call":
                     c = S.callee_at(b, ct[1][1])
-                    if c.name == "branch" and S.callee_at(b, ct[1][2][0][1]).name == "get":
+                    if c.name == "branch" and ct[1][2] and ct[1][2][0][0] == "call" and S.callee_at(b, ct[1][2][0][1]).name == "get":
                         present = cn  # Continue / Break
+                    elif c.name == "get" and "HashMap" in c.path:
+                        present = {"Some": "Continue", "None": "Break"}.get(cn, cn)  # `match map.get(..)` form
                     elif c.name == borrow:
                         borrowed = cn  # Ok / Err
             if p.end == "return":
@@ -277,6 +279,23 @@ def outcome(ctx, report, rule, facts, config):
             # closure always builds a guard
             r = prog.bt(clos[0]).local(0)
             ok = ok and r[0] == "agg" and r[2] in (A.FETCH + "::Fetch", A.FETCHMUT + "::FetchMut")
+        elif not clos:
+            # `match self.resources.get(&id) { Some(r) => Some(guard(r.borrow())), None => None }`
+            try:
+                ps = [p for p in enumerate_paths(b, facts) if p.end == "return"]
+            except Exception:
+                ps = []
+            ok = len(ps) == 2
+            borrows = [Callee(t["func"]).name for bb, t in b.normal_calls() if Callee(t["func"]).name in SHARED_BORROWS | EXCL_BORROWS]
+            ok = ok and borrows == [borrow]
+            for p in ps:
+                pres = None
+                for (ct, cv, cn, cb) in p.conds:
+                    if ct[0] == "discr" and ct[1][0] == "call" and S.callee_at(b, ct[1][1]).name == "get":
+                        pres = cn
+                some = p.ret[0] == "agg" and p.ret[2] == "std::option::Option::Some"
+                if (pres == "Some") != some or pres is None:
+                    ok = False
         else:
             ok = False
         report.ob(rule, name, ok, "get(&id).map(|cell| guard(cell.%s())): None only when absent, a refused borrow panics inside %s" % (borrow, borrow) if ok else
@@ -304,7 +323,7 @@ NORMALISE = [("try_borrow_mut", "try_borrow*"), ("try_borrow", "try_borrow*"), (
              ("from_raw_parts_mut", "from_raw_parts*"), ("from_raw_parts", "from_raw_parts*"), ("cast_mut", "cast*"), ("get_mut", "get*")]
 
 
-SEMANTIC_CALLS = set(["get", "get*", "contains_key", "branch", "from_residual", "try_borrow*", "borrow*", "map", "unwrap_or_else", "panic_fmt",
+SEMANTIC_CALLS = set(["get", "get*", "contains_key", "try_borrow*", "borrow*",
                       "assert_same_type_id", "from_type_id", "try_fetch_internal", "try_fetch*", "index", "index_mut", "downcast_ref_unchecked",
                       "downcast_mut_unchecked", "deref", "deref_mut", "<fn pointer>", "from_raw_parts*", "clone"])
 
